@@ -30,7 +30,7 @@ import (
 // then the two residents send again, and their hellos come back on fresh connections. Every request that reaches the
 // backend is judged as in the interleaving part: the three fingerprints are those of its own connection.
 func populationPass(t *testing.T, rep *ev.Report) {
-	P, storm := 160, 70000
+	P, storm := 300, 70000
 	if ev.Thorough() {
 		P = 700
 	}
